@@ -11,14 +11,12 @@ subprocess.run(["git", "-C", "/repo", "apply", patch], check=True)
 res = {}
 try:
     for p in props:
-        r = subprocess.run(["./check", p], cwd="/verif", capture_output=True, text=True, env=dict(os.environ, VERIF_SKIP_PROOF="1"))
+        r = subprocess.run(["./check", p], cwd="/verif", capture_output=True, text=True, env=dict(os.environ, VERIF_SKIP_PROOF="1", VERIF_EVIDENCE_DIR="/verif/work/evidence_seeded"))
         lines = [l for l in r.stdout.splitlines() if l.startswith("VIOLATION")]
         res[p] = {"rc": r.returncode, "violations": len(lines), "first": lines[:1],
                   "nfi": any("no-failing-input-found" in l for l in lines)}
         print(p, "ALARM" if r.returncode else "quiet", lines[:1])
 finally:
     subprocess.run(["git", "-C", "/repo", "checkout", "--", "."], check=True)
-    # keep the evidence directory as it was for the unchanged tree
-    subprocess.run(["git", "-C", "/verif", "checkout", "--", "evidence"], check=False)
 json.dump(res, open(os.path.join(d, "detected.json"), "w"), indent=1)
 print("alarmed:", [p for p, v in res.items() if v["rc"]])
